@@ -671,11 +671,17 @@ def rule_patch(ctx: Ctx) -> RuleReport:
     op = ctx.p.func(X + "pdf/pdf_extractor.py", "_open_pdf_reader")
     rep.unit(op.key)
     handlers = {id(x) for t in walk_own(op.node) if isinstance(t, ast.Try) for h in t.handlers for st in h.body for x in ast.walk(st)}
-    normal = [i for i in walk_own(op.node) if isinstance(i, ast.If) and id(i) not in handlers and any(isinstance(a_, ast.Attribute) and a_.attr == "is_encrypted" for a_ in ast.walk(i.test))
+    # a local that holds `<reader>.is_encrypted` stands for it
+    enc_alias = {a_.targets[0].id for a_ in walk_own(op.node) if isinstance(a_, ast.Assign) and len(a_.targets) == 1 and isinstance(a_.targets[0], ast.Name) and isinstance(a_.value, ast.Attribute) and a_.value.attr == "is_encrypted"}
+
+    def _is_enc(e):
+        return (isinstance(e, ast.Attribute) and e.attr == "is_encrypted") or (isinstance(e, ast.Name) and e.id in enc_alias)
+
+    normal = [i for i in walk_own(op.node) if isinstance(i, ast.If) and id(i) not in handlers and any(_is_enc(a_) for a_ in ast.walk(i.test))
               and any(isinstance(c, ast.Call) and (dotted(c.func) or "").split(".")[-1] == "patch_pypdf_fallback_aes" for st in i.body for c in ast.walk(st))]
     # ... for *every* encrypted document: the test is the reader's own is_encrypted and nothing narrower. A second condition (which crypt
     # filter, which /V) re-implements pypdf's decision which streams need AES, and every case it misses fails in a fresh process
-    narrowed = [i for i in normal if not (isinstance(i.test, ast.Attribute) and i.test.attr == "is_encrypted")]
+    narrowed = [i for i in normal if not _is_enc(i.test)]
     if normal and not narrowed:
         rep.ok({"_open_pdf_reader": "fallback installed whenever the opened document is encrypted"})
     elif narrowed:
